@@ -167,11 +167,13 @@ enum FaultKind
     F_SWAP,
     F_VERSION,
     F_TYPE,
-    F_KINDS
+    F_KINDS,        // the five single-frame faults of the exhaustive part end here
+    F_BURST_DROP,   // `dist` consecutive frames lost
+    F_DISPLACE      // one frame moved `dist` positions later
 };
 inline const char* faultName(int k)
 {
-    static const char* n[] = {"drop", "dup", "swap", "corrupt-version", "corrupt-type"};
+    static const char* n[] = {"drop", "dup", "swap", "corrupt-version", "corrupt-type", "?", "burst-drop", "displace"};
     return n[k];
 }
 struct Fault
@@ -222,6 +224,22 @@ inline std::vector<FFrame> applyFaults(const StreamSet& S, const std::vector<Fau
                     std::swap(L[p], L[p + 1]);
                 }
                 break;
+            case F_BURST_DROP:
+            {
+                size_t n = std::min(f.dist, L.size() - p);
+                log += "burst-drop(" + std::to_string(p) + "," + std::to_string(n) + ") ";
+                L.erase(L.begin() + static_cast<long>(p), L.begin() + static_cast<long>(p + n));
+                break;
+            }
+            case F_DISPLACE:
+            {
+                size_t q = std::min(L.size() - 1, p + f.dist);
+                log += "displace(" + std::to_string(p) + "->" + std::to_string(q) + ") ";
+                FFrame x = L[p];
+                L.erase(L.begin() + static_cast<long>(p));
+                L.insert(L.begin() + static_cast<long>(q), x);
+                break;
+            }
             case F_VERSION:
                 if (role != 0)
                 {
@@ -453,15 +471,69 @@ inline void randomCase(Ctx& c, long idx)
     c.sample("endpoints=" + std::to_string(S.eps.size()) + " frames=" + std::to_string(S.frames.size()) + " faults=" + log, 4);
 }
 
+// lengths of loss bursts / displacement distances: small ones, and values around the powers of two where a narrow
+// counter-distance type would wrap (255, 256, 257, 511, 512, 513, 768, 1024)
+inline size_t burstLength(Rng& r)
+{
+    static const size_t v[] = {2, 3, 4, 7, 8, 15, 16, 31, 32, 63, 64, 127, 128, 129, 254, 255, 256, 257, 258, 511, 512, 513, 767, 768, 769, 1023, 1024, 1025};
+    return r.chance(1, 4) ? r.range(2, 1100) : v[r.below(sizeof v / sizeof v[0])];
+}
+
+// long streams (300..1400 frames) of one or two endpoints, hit by a burst loss / far displacement plus a few single faults
+inline void burstCase(Ctx& c, long idx, bool deterministic)
+{
+    Rng r = deterministic ? c.fixedRng(idx, 14) : c.caseRng(idx, 14);
+    StreamSet S = genStreams(r, r.range(1, 2), r.range(300, 1400));
+    std::vector<Fault> faults;
+    Fault b;
+    b.kind = r.chance(1, 4) ? F_DISPLACE : F_BURST_DROP;
+    b.dist = burstLength(r);
+    if (deterministic)
+    {
+        static const size_t v[] = {255, 256, 257, 511, 512, 513, 768, 1024, 128, 64};
+        b.kind = (idx % 5 == 4) ? F_DISPLACE : F_BURST_DROP;
+        b.dist = v[idx % 10];
+    }
+    // aim the burst so that it starts inside a segmented message (after a first or middle segment)
+    size_t start = r.below(S.frames.size() > b.dist + 2 ? S.frames.size() - b.dist - 2 : 1);
+    for (size_t k = 0; k < 40 && start + 1 < S.frames.size(); ++k, ++start)
+        if (S.frames[start].role == 1 || S.frames[start].role == 2)
+        {
+            ++start;
+            break;
+        }
+    b.pos = start;
+    faults.push_back(b);
+    size_t extra = r.below(3);
+    for (size_t i = 0; i < extra; ++i)
+        faults.push_back(genFault(r, S.frames.size()));
+    std::string log;
+    uint64_t sig;
+    bool hit;
+    auto L = applyFaults(S, faults, r, log, sig, hit);
+    runFaulted(c, S, L, log);
+    c.sig(mix64(sig, mix64(0xb0257, b.dist)));
+    c.count("fault_sequences");
+    c.count("burst_or_displacement_cases");
+    c.feature("c06_burst_lengths", std::to_string(b.dist > 1100 ? 1100 : b.dist));
+    if (idx % 50 == 0)
+        c.sample("long stream: frames=" + std::to_string(S.frames.size()) + " faults=" + log, 5);
+}
+
 constexpr long kPairCases = 16 * 61;
+constexpr long kBurstDet = 200;
 inline long count(Ctx& c)
 {
-    return kPairCases + (c.thorough() ? 2400000 : 16000);
+    return kPairCases + kBurstDet + (c.thorough() ? 2400000 : 16000);
 }
 inline void run(Ctx& c, long idx)
 {
     if (idx < kPairCases)
         return pairSweep(c, idx);
+    if (idx < kPairCases + kBurstDet)
+        return burstCase(c, idx - kPairCases, true);
+    if (idx % 16 == 5)
+        return burstCase(c, idx, false);
     randomCase(c, idx);
 }
 
